@@ -444,9 +444,9 @@ def emit_impl_header(file, pattern, rules):
         if j >= it.body_open:
             raise AnchorLost('T5: %s is not a trait impl' % pattern)
         ed.replace(toks[i][2], toks[j][3], '')
-    if 'T9' in rules:
+    if 'T9' in rules or 'T14' in rules:
         # monomorphise the last generic parameter G := <arg>; header "impl<U, E, G> X<U, E, G>"
-        g = rules['T9'][0]
+        g = (rules.get('T9') or rules['T14'])[0]
         gty = {'Goal': 'Goal<U, E>', 'DFSGoal': 'DFSGoal<U, E>'}[g]
         # remove ", G" from the impl generics and replace the G argument of the self type
         lt = it.kw + 1
@@ -470,6 +470,10 @@ def emit_impl_header(file, pattern, rules):
         if toks[k][1] != '>' or toks[k - 1][1] != 'G':
             raise AnchorLost('T9: self type of %s does not end in G>' % pattern)
         ed.replace(toks[k - 1][2], toks[k - 1][3], gty)
+        # a bound on the monomorphised parameter (turned into `G: 'static` by T3) goes with it
+        txt = re.sub(r"\bG\s*:\s*'static\s*,?", '', ed.render())
+        txt = re.sub(r"\bwhere\s*$", '', txt.rstrip())
+        return txt.rstrip() + ' {\n', it
     return ed.render().rstrip() + ' {\n', it
 
 
@@ -636,6 +640,20 @@ def emit_fn(spec, impl_item, linemap_cb):
                 hit += 1
         if hit != 1:
             raise AnchorLost('T10: %d parameters of type T' % hit)
+    if 'T14' in rules:
+        # T14: the type parameter G := Goal<U, E> | DFSGoal<U, E> (monomorphisation of a generic impl block or fn);
+        # `G::f()` becomes `<Goal<U, E>>::f()`
+        gty14 = {'Goal': 'Goal<U, E>', 'DFSGoal': 'DFSGoal<U, E>'}[rules['T14'][0]]
+        gq = it.kw + 2
+        if toks[gq][1] == '<':
+            # a free fn's own generic list: drop ", G"
+            ge_ = skip_angle(toks, gq)
+            for z in range(gq + 1, ge_ - 1):
+                if toks[z][1] == 'G' and toks[z - 1][1] == ',' and toks[z + 1][1] in (',', '>', ':'):
+                    sed.replace(toks[z - 1][2], toks[z][3], '')
+        for z in range(p, sig_end):
+            if toks[z][0] == 'ident' and toks[z][1] == 'G':
+                sed.replace(toks[z][2], toks[z][3], ('<%s>' % gty14) if toks[z + 1][1] == '::' else gty14)
     if 'T5name' in rules:
         sed.replace(toks[it.kw + 1][2], toks[it.kw + 1][3], rules['T5name'][0])
     if arrow is not None:
@@ -648,6 +666,10 @@ def emit_fn(spec, impl_item, linemap_cb):
         if names != 'none':
             erase_where(toks, where_i, it.body_open, names, wed)
         where_txt = wed.render().strip()
+        if 'T14' in rules:
+            where_txt = re.sub(r"\bG\s*:\s*'static\s*,?", '', where_txt).strip()
+            if where_txt == 'where':
+                where_txt = ''
     # ---- body ----
     ba, bb = it.body_open, it.b
     bed = Edits(src, toks[ba][3], toks[bb][2])
@@ -743,6 +765,20 @@ def emit_fn(spec, impl_item, linemap_cb):
                 continue   # inside a T12/T13 rewrite: the replacement text is written with `self_` already
             if toks[z][0] == 'ident' and toks[z][1] == 'self':
                 bed.replace(toks[z][2], toks[z][3], 'self_')
+    if 'T14' in rules:
+        gty14 = {'Goal': 'Goal<U, E>', 'DFSGoal': 'DFSGoal<U, E>'}[rules['T14'][0]]
+        n14 = 0
+        for z in range(ba + 1, bb):
+            if z in replaced_tok:
+                continue
+            if toks[z][0] == 'ident' and toks[z][1] == 'G':
+                bed.replace(toks[z][2], toks[z][3], ('<%s>' % gty14) if toks[z + 1][1] == '::' else gty14)
+                n14 += 1
+            elif toks[z][0] == 'ident' and toks[z][1] in rules['T14'][1:] and toks[z + 1][1] == '::' and toks[z + 2][1] != '<':
+                # a path into another monomorphised impl block: name the instance (`X::f` -> `X::<U, E, Goal<U, E>>::f`)
+                bed.insert(toks[z][3], '::<U, E, %s>' % gty14)
+                n14 += 1
+        info.setdefault('rewrites', []).append({'rule': 'T14', 'source': 'G', 'emitted': gty14, 'count': n14})
     if 'T10' in rules:
         hits = 0
         for z in range(ba + 1, bb - 8):
@@ -813,7 +849,7 @@ def emit_fn(spec, impl_item, linemap_cb):
     # self-check: emitted body minus splices, with the rewrite rules undone, equals the source
     info['body_hash_emitted'] = emitted_hash('{' + pro + body + '}', rules)
     info['sig_hash_src'] = tok_hash(toks[sig_a:it.body_open])
-    if not rules.keys() & {'T4', 'T9', 'T10', 'T12', 'T13'} and not ndbg:
+    if not rules.keys() & {'T4', 'T9', 'T10', 'T12', 'T13', 'T14'} and not ndbg:
         if info['body_hash_src'] != info['body_hash_emitted']:
             raise AnchorLost('internal: body hash mismatch for %s' % spec.name)
     return text, info
@@ -893,7 +929,7 @@ def parse_fn_block(lines, start, spec):
                 buf = [rest]
                 while i + 1 < len(lines) and lines[i + 1].strip() and \
                         split_tags(lines[i + 1].strip().split(None, 1)[0])[0] not in CLAUSE_KW and \
-                        not lines[i + 1].strip().startswith('@@'):
+                        not lines[i + 1].strip().startswith('@@') and not lines[i + 1].strip().startswith('//'):
                     i += 1
                     buf.append(lines[i].strip())
                 txt = ' '.join(buf)
@@ -1028,7 +1064,7 @@ def generate(vc_path, canary=False):
                 spec.file, spec.container, impl_item, irules = cur_impl
                 spec.name = arg
                 # impl-level T3/T9 rules are inherited
-                for k in ('T3', 'T9'):
+                for k in ('T3', 'T9', 'T14'):
                     if k in irules:
                         spec.rules[k] = irules[k]
             i = parse_fn_block(lines, i + 1, spec)
@@ -1041,7 +1077,7 @@ def generate(vc_path, canary=False):
                 k = text.index('\n{') + 2
                 text = text[:k] + ' assert(false); /*canary*/ ' + text[k:]
             qual = '%s :: %s%s :: %s' % (spec.file, spec.container or '-',
-                                         '[G=%s]' % spec.rules['T9'][0] if 'T9' in spec.rules else '', spec.name)
+                                         '[G=%s]' % (spec.rules.get('T9') or spec.rules.get('T14'))[0] if ('T9' in spec.rules or 'T14' in spec.rules) else '', spec.name)
             info['qual'] = qual
             info['tags'] = spec.tags
             info['container'] = spec.container
